@@ -63,6 +63,11 @@ func (r *httpReq) target() string {
 	return r.Path
 }
 
+// hold keeps a generated value behind a pointer inside a value struct: rapid logs every draw with %#v
+// into the fail file, and a body of some KiB printed that way makes the file unloadable (one line per
+// draw, 64 KiB scanner limit). A nested pointer prints as an address.
+type hold[T any] struct{ P *T }
+
 type httpResp struct {
 	Status int
 	Header [][2]string
@@ -197,8 +202,8 @@ func genChunks(label string) *rapid.Generator[[]int] {
 
 var methodsBody = map[string]bool{"POST": true, "PUT": true, "PATCH": true, "DELETE": true, "LINK": true}
 
-func genHTTPReq(down string, big bool) *rapid.Generator[*httpReq] {
-	return rapid.Custom(func(t *rapid.T) *httpReq {
+func genHTTPReq(down, up string, big bool) *rapid.Generator[hold[httpReq]] {
+	return rapid.Custom(func(t *rapid.T) hold[httpReq] {
 		r := &httpReq{}
 		r.Method = rapid.SampledFrom([]string{"GET", "GET", "POST", "POST", "PUT", "PATCH", "DELETE", "OPTIONS", "HEAD", "LINK"}).Draw(t, "method")
 		tg := genTarget(r.Method, true).Draw(t, "target")
@@ -215,12 +220,17 @@ func genHTTPReq(down string, big bool) *rapid.Generator[*httpReq] {
 				r.Chunks = genChunks("req").Draw(t, "reqChunks")
 			}
 		}
-		return r
+		if down == "Http2" || up == "Http2" {
+			// raw non-ASCII bytes are not part of the RFC 3986 request-target grammar; they are only generated
+			// for the pure HTTP/1 pairing, which passes them through (HTTP/2 peers re-encode the whole path)
+			r.Path = pctHigh(r.Path)
+		}
+		return hold[httpReq]{r}
 	})
 }
 
-func genHTTPResp(method string, big bool) *rapid.Generator[*httpResp] {
-	return rapid.Custom(func(t *rapid.T) *httpResp {
+func genHTTPResp(method string, big bool) *rapid.Generator[hold[httpResp]] {
+	return rapid.Custom(func(t *rapid.T) hold[httpResp] {
 		p := &httpResp{}
 		if rapid.IntRange(0, 2).Draw(t, "statusKind") == 0 {
 			p.Status = rapid.IntRange(200, 599).Draw(t, "status")
@@ -233,7 +243,7 @@ func genHTTPResp(method string, big bool) *rapid.Generator[*httpResp] {
 			p.Body = genBody("resp", big).Draw(t, "respBody")
 			p.Chunks = genChunks("resp").Draw(t, "respChunks")
 		}
-		return p
+		return hold[httpResp]{p}
 	})
 }
 
@@ -494,15 +504,47 @@ func TestPropE2EHTTP(t *testing.T) {
 			rt.Skip("rig: " + err.Error())
 		}
 		defer g.close()
+		// Oracle failures are collected over the whole case and raised at its end, so that a listed known
+		// finding (several are pervasive: default Content-Type, default User-Agent) does not hide what else
+		// the same exchange or a later exchange on the connection would show.
+		var found []finding
 		for i := 0; i < n; i++ {
-			req := genHTTPReq(pair[0], ev.Thorough()).Draw(rt, "req")
-			resp := genHTTPResp(req.Method, ev.Thorough()).Draw(rt, "resp")
-			httpExchange(rt, g, i, req, resp)
+			req := genHTTPReq(pair[0], pair[1], ev.Thorough()).Draw(rt, "req").P
+			resp := genHTTPResp(req.Method, ev.Thorough()).Draw(rt, "resp").P
+			fs, fatal := httpExchange(rt, g, i, req, resp)
+			found = append(found, fs...)
+			if fatal {
+				break
+			}
 		}
+		raise(rt, partHTTP, found)
 	})
 }
 
-func httpExchange(rt *rapid.T, g *httpRig, idx int, req *httpReq, resp *httpResp) {
+type finding struct{ sig, msg string }
+
+// raise reports the collected failures: listed known findings are counted, the first other one fails the case.
+func raise(rt *rapid.T, part string, found []finding) {
+	seen := map[string]bool{}
+	known := false
+	for _, f := range found {
+		if seen[f.sig] {
+			continue
+		}
+		seen[f.sig] = true
+		f := f
+		if ev.Guard(func() { ev.Fail(rt, part, f.sig, "%s", f.msg) }) {
+			known = true
+		}
+	}
+	if known {
+		ev.Class(part, "case-with-known-finding")
+	}
+}
+
+type stopExchange struct{}
+
+func httpExchange(rt *rapid.T, g *httpRig, idx int, req *httpReq, resp *httpResp) (found []finding, fatal bool) {
 	pairName := g.down + "-" + g.up
 	feature := hasNormalisableFeature(req.Path)
 	classes := []string{"pair:" + pairName, "method:" + req.Method, fmt.Sprintf("status:%dxx", resp.Status/100)}
@@ -579,8 +621,22 @@ func httpExchange(rt *rapid.T, g *httpRig, idx int, req *httpReq, resp *httpResp
 		case strings.HasPrefix(sig, "request-default-user-agent-invented"):
 			scope = "up=" + g.up // written by the upstream-side codec
 		}
-		ev.Fail(rt, partHTTP, "http/"+scope+"/"+sig, "%s: %s", desc, fmt.Sprintf(format, a...))
+		found = append(found, finding{"http/" + scope + "/" + sig, desc + ": " + fmt.Sprintf(format, a...)})
+		// failures after which the rest of the exchange (and the connection) cannot be judged
+		for _, pfx := range []string{"request-not-forwarded", "request-body-lost", "response-not-delivered", "request-body-changed", "response-body-changed"} {
+			if strings.HasPrefix(sig, pfx) {
+				fatal = true
+				panic(stopExchange{})
+			}
+		}
 	}
+	defer func() {
+		if r := recover(); r != nil {
+			if _, ok := r.(stopExchange); !ok {
+				panic(r)
+			}
+		}
+	}()
 	cross := g.down != g.up
 
 	// drain stale observations, plan, send
@@ -650,11 +706,14 @@ func httpExchange(rt *rapid.T, g *httpRig, idx int, req *httpReq, resp *httpResp
 		// RFC 7231 §7.1.1.2: a recipient with a clock MUST add Date when it forwards a response without one
 		return kv[0] == "date" && rnames["date"] == 0
 	}, len(resp.Body) > 0)
+	return found, fatal
 }
 
 // checkHeaders: two-sided multiset comparison of (lower-cased name, value); repeated lines may arrive
 // combined with "," in order (RFC 7230 §3.2.2), except Set-Cookie.
-func checkHeaders(fail func(string, string, ...interface{}), what string, cross bool, want, got [][2]string, ignore map[string]bool, allowedExtra func([2]string) bool, hasBody bool) {
+func checkHeaders(fail0 func(string, string, ...interface{}), what string, cross bool, want, got [][2]string, ignore map[string]bool, allowedExtra func([2]string) bool, hasBody bool) {
+	reported := 0
+	fail := func(sig, format string, a ...interface{}) { reported++; fail0(sig, format, a...) }
 	missing, extra := mesh.HeaderDiff(want, got, ignore)
 	var extra2 [][2]string
 	for _, kv := range extra {
@@ -702,7 +761,9 @@ func checkHeaders(fail func(string, string, ...interface{}), what string, cross 
 				fail(what+"-set-cookie-lines-combined", "repeated Set-Cookie lines arrived folded into one: sent %s, arrived %s", shortHdr(want), shortHdr(got))
 			}
 		}
-		ev.Class(partHTTP, what+"-header:combined-lines")
+		if len(missing) > 0 {
+			ev.Class(partHTTP, what+"-header:combined-lines")
+		}
 		return
 	}
 	for name, w := range wl {
@@ -729,11 +790,14 @@ func checkHeaders(fail func(string, string, ...interface{}), what string, cross 
 			sorted := func(s []string) []string { c := append([]string(nil), s...); sortS(c); return c }
 			if reflect.DeepEqual(sorted(w), sorted(gv)) {
 				fail(what+"-header-values-reordered"+rep, "%q values arrived in another order: sent %s, arrived %s", name, shortHdr(want), shortHdr(got))
+			} else {
+				fail(what+"-header-value-changed"+rep, "%q: sent %s, arrived %s", name, shortHdr(want), shortHdr(got))
 			}
-			fail(what+"-header-value-changed"+rep, "%q: sent %s, arrived %s", name, shortHdr(want), shortHdr(got))
 		}
 	}
-	fail(what+"-header-mismatch", "sent %s, arrived %s (missing %v, extra %v)", shortHdr(want), shortHdr(got), missing, extra)
+	if reported == 0 {
+		fail(what+"-header-mismatch", "sent %s, arrived %s (missing %v, extra %v)", shortHdr(want), shortHdr(got), missing, extra)
+	}
 }
 
 func sortS(s []string) {
@@ -753,6 +817,10 @@ func boltTimeoutOff(p string) int {
 		return 12
 	}
 	return 10
+}
+
+func holdFrame(g *rapid.Generator[*codec.Frame]) *rapid.Generator[hold[codec.Frame]] {
+	return rapid.Custom(func(t *rapid.T) hold[codec.Frame] { return hold[codec.Frame]{g.Draw(t, "frame")} })
 }
 
 func boltCmdCodeOff(p string) int {
@@ -835,7 +903,7 @@ func xCase(rt *rapid.T, p string) {
 	var xs []xch
 	usedIDs := map[uint64]bool{}
 	for i := 0; i < n; i++ {
-		req := codec.GenFrame(p, big).Filter(func(f *codec.Frame) bool {
+		req := holdFrame(codec.GenFrame(p, big).Filter(func(f *codec.Frame) bool {
 			if !kinds[f.Kind] {
 				return false
 			}
@@ -843,7 +911,7 @@ func xCase(rt *rapid.T, p string) {
 				return false // cmdCode 100 is the goaway control frame, consumed by the stream layer by design
 			}
 			return true
-		}).Draw(rt, "request")
+		})).Draw(rt, "request").P
 		if usedIDs[req.ID] { // ids in flight on one connection are distinct (multiplexing contract)
 			continue
 		}
@@ -856,7 +924,7 @@ func xCase(rt *rapid.T, p string) {
 			binary.BigEndian.PutUint32(x.reqBytes[boltTimeoutOff(p):], to)
 		}
 		if req.Kind == "request" {
-			x.resp = codec.GenFrame(p, big).Filter(func(f *codec.Frame) bool { return f.Kind == "response" }).Draw(rt, "response")
+			x.resp = holdFrame(codec.GenFrame(p, big).Filter(func(f *codec.Frame) bool { return f.Kind == "response" })).Draw(rt, "response").P
 		}
 		xs = append(xs, x)
 	}
@@ -1060,19 +1128,32 @@ type tcpScript struct {
 	EarlyWrite   bool     // client starts writing before the proxy had a chance to connect upstream
 }
 
-func genChunksBytes(label string) *rapid.Generator[[][]byte] {
-	return rapid.Custom(func(t *rapid.T) [][]byte {
+type chunkSpec struct {
+	N    int
+	Seed uint64
+}
+
+func genChunksBytes(label string) *rapid.Generator[[]chunkSpec] {
+	return rapid.Custom(func(t *rapid.T) []chunkSpec {
 		n := rapid.IntRange(0, 6).Draw(t, label+"N")
-		var out [][]byte
+		var out []chunkSpec
 		for i := 0; i < n; i++ {
 			sz := rapid.SampledFrom([]int{1, 1, 2, 7, 100, 1000, 4096, 16384, 16385, 65536, 200000}).Draw(t, label+"Size")
 			if rapid.IntRange(0, 20).Draw(t, label+"Huge") == 0 {
 				sz = 1 << 20
 			}
-			out = append(out, codec.Fill(sz, rapid.Uint64Range(0, 1<<16).Draw(t, label+"Seed"), false))
+			out = append(out, chunkSpec{sz, rapid.Uint64Range(0, 1<<16).Draw(t, label+"Seed")})
 		}
 		return out
 	})
+}
+
+func expand(specs []chunkSpec) [][]byte {
+	var out [][]byte
+	for _, c := range specs {
+		out = append(out, codec.Fill(c.N, c.Seed, false))
+	}
+	return out
 }
 
 func genGaps(label string, n int) *rapid.Generator[[]int] {
@@ -1092,8 +1173,8 @@ func concat(chunks [][]byte) []byte {
 func TestPropE2ETCP(t *testing.T) {
 	ev.Check(t, func(rt *rapid.T) {
 		s := &tcpScript{}
-		s.C2S = genChunksBytes("c2s").Draw(rt, "c2s")
-		s.S2C = genChunksBytes("s2c").Draw(rt, "s2c")
+		s.C2S = expand(genChunksBytes("c2s").Draw(rt, "c2s"))
+		s.S2C = expand(genChunksBytes("s2c").Draw(rt, "s2c"))
 		s.GapC = genGaps("gc", len(s.C2S)).Draw(rt, "gapC")
 		s.GapS = genGaps("gs", len(s.S2C)).Draw(rt, "gapS")
 		s.Closer = rapid.SampledFrom([]string{"client", "server"}).Draw(rt, "closer")
